@@ -28,11 +28,9 @@ package types
 
 // ---- signatures and canonical sign bytes (C07 and everything that builds on it) ----
 
-//@ spec func sigOK(pk crypto.PubKey, msg []byte, sig []byte) bool
+// sigOK(pk, msg, sig) and the contract of crypto.PubKey.VerifySignature are declared in crypto/zz_verif_contracts.go.
 //@ spec func signBytes(chainID string, typ int32, height int64, round int32, bhash []byte, ptotal uint32, phash []byte, ts int64) []byte
 
-//@ extern crypto.PubKey.VerifySignature
-//@   ensures det: result == sigOK(self, msg, sig)
 
 // Assumed about the protobuf encoder: the canonical sign bytes are a function of exactly these fields.
 //@ func VoteSignBytes
